@@ -65,6 +65,13 @@ def derivative_monitors(run):
             else:
                 small = type(small)(np.asarray(small)[:B.DIM[kind]] * 1e-3, np.asarray(small)[B.DIM[kind]:] if kind == 'SE3' else 0.3 * rnd.uniform(-1, 1))
             z = (p2 - p1) + small                      # a measurement near the current relative pose (no half-turn / +-pi errors)
+            if kind == 'SE3' and n % 12 in (1, 5):
+                # deterministic region: a rotational error of 1e-9 .. 4e-9 (far below any comparison tolerance) whose quaternion is stored on the
+                # OTHER hemisphere (measurement quaternion negated): error ~ (.., -v), w ~ -1 -- the Jacobian rows follow the sign of the error
+                t = 10 ** rnd.uniform(-9, -8.4)
+                tiny = PoseSE3(np.asarray(small)[:3], [t, -t / 2, t / 3, math.sqrt(1.0 - t * t * (1 + 0.25 + 1.0 / 9))])
+                z = (p2 - p1) + tiny
+                z[3:] = -z[3:]
             e = EdgeOdometry([1, 2], np.eye(B.CDIM[kind]), z, [v1, v2])
         else:
             P = PoseR2 if kind in ('SE2', 'R2') else PoseR3
